@@ -8,9 +8,12 @@ import (
 	"testing"
 
 	"github.com/cinar/indicator/v2/asset"
+	"github.com/cinar/indicator/v2/momentum"
 	"github.com/cinar/indicator/v2/strategy"
 	"github.com/cinar/indicator/v2/strategy/compound"
 	"github.com/cinar/indicator/v2/strategy/decorator"
+	smomentum "github.com/cinar/indicator/v2/strategy/momentum"
+	strend "github.com/cinar/indicator/v2/strategy/trend"
 	"pgregory.net/rapid"
 	"verif/harness/engine"
 	"verif/harness/gen"
@@ -706,6 +709,11 @@ type macdRsiCase struct {
 	Bars   gen.Bars `json:"bars"`
 	BuyAt  float64  `json:"buy_at"`
 	SellAt float64  `json:"sell_at"`
+	// Replace: the instance has computed once before its exported MacdStrategy / RsiStrategy
+	// fields are pointed at new objects (1: the RSI strategy, 2: the MACD strategy, 3: both)
+	Replace int `json:"replace,omitempty"`
+	RsiP    int `json:"rsi_p,omitempty"`
+	MacdP   int `json:"macd_p,omitempty"`
 }
 
 func macdRsiProp() engine.AnyProp {
@@ -713,12 +721,30 @@ func macdRsiProp() engine.AnyProp {
 		Gen: func(t *rapid.T) macdRsiCase {
 			n := rapid.IntRange(0, 120).Draw(t, "n")
 			return macdRsiCase{Bars: gen.GenBarsOf(t, n, rapid.SampledFrom([]string{"walk", "spikes", "sawtooth"}).Draw(t, "class")),
-				BuyAt: float64(rapid.IntRange(20, 50).Draw(t, "buy")), SellAt: float64(rapid.IntRange(50, 80).Draw(t, "sell"))}
+				BuyAt: float64(rapid.IntRange(20, 50).Draw(t, "buy")), SellAt: float64(rapid.IntRange(50, 80).Draw(t, "sell")),
+				Replace: rapid.SampledFrom([]int{0, 0, 1, 2, 3}).Draw(t, "replace"), RsiP: rapid.IntRange(2, 9).Draw(t, "rsi_p"), MacdP: rapid.IntRange(2, 6).Draw(t, "macd_p")}
 		},
 		Check: func(c macdRsiCase) engine.Outcome {
 			var o engine.Outcome
 			sn := stub.Snapshots(c.Bars)
 			m := compound.NewMacdRsiStrategyWith(c.BuyAt, c.SellAt)
+			if c.Replace != 0 {
+				// use the instance once, then point its exported fields at new sub-strategies: the
+				// compound wraps what its fields hold NOW
+				if _, msg := run(m, stub.SnapshotsFromCloses([]float64{10, 11, 12, 11, 10, 9, 10, 11, 12, 13}), 0); msg != "" {
+					o.Failf("MacdRsi first use: %s", msg)
+					return o
+				}
+				if c.Replace&1 != 0 {
+					r := smomentum.NewRsiStrategyWith(c.BuyAt+5, c.SellAt-5)
+					r.Rsi = momentum.NewRsiWithPeriod[float64](c.RsiP)
+					m.RsiStrategy = r
+				}
+				if c.Replace&2 != 0 {
+					m.MacdStrategy = strend.NewMacdStrategyWith(c.MacdP, c.MacdP+3, 2)
+				}
+				o.Class("sub_strategy_replaced_after_first_use")
+			}
 			got, msg := run(m, sn, 0)
 			if msg != "" {
 				o.Failf("MacdRsi: %s", msg)
